@@ -14,7 +14,7 @@ UNITS = [D.unit_validate(), RD.unit_as_delimited_keywords(), RD.unit_delimited_r
 from contracts import rowio_writers as RW
 UNITS += [RW.unit_delimited_row_writer_write_row(), RW.unit_delimited_row_writer_init(), RW.unit_row_writer_close(), RW.unit_row_writer_write_rows()]
 from contracts import validio as VIO
-UNITS += [VIO.unit_writer_sweep().also("C12")]
+UNITS += [VIO.unit_writer_file_sweep()]
 UNITS += [D.unit_set_property().also("C12"), D.unit_dataformat_init().also("C12"), VIO.unit_raw_rows()]
 from contracts import tools as TL
 UNITS += [TL.unit_compat_csv()]
